@@ -5,10 +5,10 @@ Require Import Tensor Num Result C09_Masked C09_Ops C09_TfNorm C09_Facts C09_Run
 Import ListNotations.
 
 (* one frame, one person, two points, two coordinates; the second point is missing (confidence 0) and holds
-   nan / +inf in one filling and 1e30 / -7 in the other *)
+   nan / +inf in one filling and 2^100 / -7 in the other *)
 Definition ex_conf : tensor float := mkT [1; 1; 2] [1%float; 0%float].
 Definition ex_raw : tensor float := mkT [1; 1; 2; 2] [3%float; 4%float; nan; infinity].
-Definition ex_raw' : tensor float := mkT [1; 1; 2; 2] [3%float; 4%float; 1.5e30%float; (-7)%float].
+Definition ex_raw' : tensor float := mkT [1; 1; 2; 2] [3%float; 4%float; 0x1p100%float; (-7)%float].
 Definition ex_np : body F_ops := np_ctor F_ops (of_plain F_ops ex_raw) ex_conf.
 Definition ex_np' : body F_ops := np_ctor F_ops (of_plain F_ops ex_raw') ex_conf.
 Definition ex_t : body F_ops := t_ctor_plain F_ops ex_raw ex_conf.
